@@ -3,6 +3,7 @@
 pub mod urlrec;
 pub mod urlops;
 pub mod urlprops;
+pub mod specapi;
 use std::collections::{BTreeMap, HashSet};
 use std::io::{BufRead, BufReader, Write};
 use std::process::{Child, ChildStdin, ChildStdout, Command, Stdio};
@@ -251,6 +252,7 @@ pub struct Args {
     pub tier: String,
     pub seed: u64,
     pub driver: String,
+    pub driver2: String,
     pub out: String,
     pub file: String,
     pub extra: Vec<String>,
@@ -261,6 +263,7 @@ pub fn parse_args() -> Args {
         tier: "quick".into(),
         seed: 1,
         driver: String::new(),
+        driver2: String::new(),
         out: String::new(),
         file: String::new(),
         extra: vec![],
@@ -274,6 +277,7 @@ pub fn parse_args() -> Args {
             "--tier" => { a.tier = val(i); i += 1 }
             "--seed" => { a.seed = val(i).parse().unwrap_or(1); i += 1 }
             "--driver" => { a.driver = val(i); i += 1 }
+            "--driver2" => { a.driver2 = val(i); i += 1 }
             "--out" => { a.out = val(i); i += 1 }
             "--file" => { a.file = val(i); i += 1 }
             other => a.extra.push(other.to_string()),
